@@ -134,6 +134,12 @@ impl Vtx {
             });
         }
 
+        if player_frequency == 0 {
+            return Err(VtxError::InvalidHeader {
+                message: "Invalid player frequency",
+            });
+        }
+
         let strings_start = reader.stream_position()?;
 
         const READ_STRING_BUFFER_SIZE: usize = 256;
@@ -144,9 +150,14 @@ impl Vtx {
         while null_terminators_read != 5 {
             let mut strings_partial_buffer = [0u8; READ_STRING_BUFFER_SIZE];
             let bytes_read = reader.read(&mut strings_partial_buffer)?;
+            if bytes_read == 0 {
+                return Err(VtxError::InvalidHeader {
+                    message: "Unexpected end of strings block",
+                });
+            }
             let mut current_buffer_bytes_count = 0;
             while current_buffer_bytes_count < bytes_read {
-                if let Some(pos) = strings_partial_buffer[current_buffer_bytes_count..]
+                if let Some(pos) = strings_partial_buffer[current_buffer_bytes_count..bytes_read]
                     .iter()
                     .position(|x| *x == b'\0')
                 {
@@ -181,11 +192,11 @@ impl Vtx {
             .map(|buf| String::from_utf8_lossy(buf).into_owned())
             .collect::<Vec<_>>();
 
-        assert_eq!(
-            strings.len(),
-            EXPECTED_STRINGS_COUNT,
-            "Iterator size should be assured above"
-        );
+        if strings.len() != EXPECTED_STRINGS_COUNT {
+            return Err(VtxError::InvalidHeader {
+                message: "Invalid strings block",
+            });
+        }
 
         let comment = strings.pop().unwrap();
         let tracker = strings.pop().unwrap();
